@@ -5,10 +5,30 @@ from lib.facts import CheckerError
 BUILTIN = {"ANY", "SOI", "EOI", "ASCII_DIGIT", "ASCII_ALPHA", "ASCII_ALPHANUMERIC", "PEEK", "POP", "PUSH", "DROP", "NEWLINE_", "ASCII_HEX_DIGIT"}
 
 
+# the silent rules of the pinned grammar: the names the analyses refer to. Any other silent rule is a helper somebody factored out of
+# these (`ws_nl = _{ WHITESPACE | NEWLINE }`): a silent rule leaves no trace in the parse tree, so a reference to it is the same grammar
+# as its body written in place - which is how the analyses read it
+ANCHOR_SILENT = {"NEWLINE", "WHITESPACE", "argument", "binary_digits", "binary_number", "decimal_number", "hex_digits", "hex_number", "identifier_rest", "infix_op",
+                 "infix_usage", "inline_comment", "input", "integer", "lambda_infix_usage", "lambda_natural_infix_op", "lambda_term", "natural_infix_op",
+                 "natural_prefix_op", "nested_expression", "plain_newline", "postfix_op", "prefix_op", "prefix_usage", "record_key", "reserved_word",
+                 "spreadable_expression", "term"}
+
+
 class Grammar:
     def __init__(self, g):
+        import copy
         self.rules = {r["name"]: r for r in g["rules"]}
         self.order = [r["name"] for r in g["rules"]]
+        helpers = {n for n, r in self.rules.items() if r["ty"] == "silent" and n not in ANCHOR_SILENT}
+        if helpers:
+            def inline(e, stack):
+                if not isinstance(e, dict):
+                    return e
+                if e.get("k") == "ident" and e["v"] in helpers and e["v"] not in stack:
+                    return inline(copy.deepcopy(self.rules[e["v"]]["expr"]), stack | {e["v"]})
+                return {k_: (inline(v_, stack) if isinstance(v_, dict) else v_) for k_, v_ in e.items()}
+            self.rules = {n: (dict(r, expr=inline(r["expr"], frozenset())) if n not in helpers else r) for n, r in self.rules.items()}
+        self.inlined_helpers = sorted(helpers)
 
     def rule(self, name):
         if name not in self.rules:
